@@ -489,11 +489,17 @@ func runC11Conc(c *Ctx) {
 			wg.Wait()
 			close(done)
 		}()
-		// let the senders run into the full queue, then read in bursts
+		// let the senders run into the full queue, then read in bursts; the server PINGs meanwhile (the PONGs are
+		// one more stream of outgoing lines between the pieces)
+		nPings := 0
 		for k := 0; k < 200; k++ {
 			select {
 			case <-done:
 			default:
+				if r.Intn(3) == 0 {
+					cs.mc.SendLine(fmt.Sprintf("PING :c11p%d", nPings))
+					nPings++
+				}
 				cs.mc.Allow(1 + r.Intn(30))
 				time.Sleep(time.Duration(20+r.Intn(200)) * time.Microsecond)
 				continue
@@ -502,18 +508,71 @@ func runC11Conc(c *Ctx) {
 		}
 		cs.mc.Resume()
 		if !waitCh(done) {
+			if cs.mc.Closed() {
+				// nothing ended this connection: the client itself gave it up in the middle of the split messages
+				c.R.Violate(rig.Violation{Sig: "c11|connection-given-up-while-splitting", Detail: "the client closed the connection while split messages were being written and the server pinged (no fault was injected); the remaining pieces are lost", Case: Case("conc", idx)})
+				cs.s.Release()
+				if c.R.NumViolations() > 10 {
+					return
+				}
+				continue
+			}
 			c.R.Inconcl(fmt.Sprintf("%s: senders did not finish", Case("conc", idx)))
 			return
 		}
 		cs.s.Conn.Raw("VSYNC conc")
-		if !cs.mc.WaitLines(WaitLong, func(lines []string) bool { return len(lines) > 0 && lines[len(lines)-1] == "VSYNC conc" }) {
+		// the separator, and every PONG still owed (one may follow the separator)
+		sync1 := func(lines []string) bool {
+			seen, np := false, 0
+			for i := len(lines) - 1; i >= 0 && i >= len(lines)-nPings-2; i-- {
+				if lines[i] == "VSYNC conc" {
+					seen = true
+				}
+			}
+			if !seen {
+				return false
+			}
+			for _, l := range lines {
+				if strings.HasPrefix(l, "PONG :c11p") {
+					np++
+				}
+			}
+			return np >= nPings
+		}
+		if !cs.mc.WaitLines(WaitLong, sync1) {
+			if ds := rig.ProveDead(WaitShort); ds.Dead {
+				c.R.Violate(rig.Violation{Sig: "c11|lines-lost-with-pings", Detail: "after the senders finished, the separator or some PONGs owed never reached the wire: dead state " + ds.Signature, Case: Case("conc", idx)})
+				cs.s.Release()
+				continue
+			}
 			c.R.Inconcl(fmt.Sprintf("%s: separator not seen", Case("conc", idx)))
 			return
 		}
-		lines, _ := cs.mc.Take()
-		lines = lines[:len(lines)-1]
+		all, _ := cs.mc.Take()
 		ok := true
 		attributed := 0
+		pongs := map[string]int{}
+		var lines []string
+		for _, l := range all {
+			if l == "VSYNC conc" {
+				continue
+			}
+			if strings.HasPrefix(l, "PONG :c11p") {
+				pongs[l]++
+			}
+			lines = append(lines, l)
+		}
+		for _, n := range pongs {
+			attributed += n
+		}
+		for k := 0; k < nPings; k++ {
+			if pongs[fmt.Sprintf("PONG :c11p%d", k)] != 1 {
+				c.R.Violate(rig.Violation{Sig: "c11|pong-between-pieces", Detail: fmt.Sprintf("PING :c11p%d sent while split messages were being written was answered %d times", k, pongs[fmt.Sprintf("PONG :c11p%d", k)]), Case: Case("conc", idx)})
+				ok = false
+				break
+			}
+		}
+		c.R.Count("server_pings_between_pieces", int64(nPings))
 		for g := 0; g < ng && ok; g++ {
 			var mine []string
 			ta, tb := fmt.Sprintf(" #g%da :", g), fmt.Sprintf(" #g%db :", g)
